@@ -1,4 +1,4 @@
-CONSTANTS Files = {"a", "b", "c"} Variants = {1, 2, 3} MaxLen = 8 Deviation = "keepDeleted"
+CONSTANTS Files = {"a", "b", "c"} Variants = {1, 2, 3, 4} MaxLen = 8 Deviation = "keepDeleted"
 SPECIFICATION Spec
 VIEW View
 INVARIANT AnswersDependOnFilesOnly
